@@ -1164,6 +1164,10 @@ class Interp:
                     return menv.vars[name]
                 self.raise_builtin(run, "AttributeError", node, C(name))
             full = f"{base.name}.{name}"
+            if base.name == "errno":
+                import errno as _errno
+                if not hasattr(_errno, name):  # e.g. the WSA* names on a POSIX build
+                    self.raise_builtin(run, "AttributeError", node, C(full))
             if full in EXT_CONST and full not in EXT_KEEP_SYMBOLIC:
                 return C(EXT_CONST[full])
             return Ext(full)
